@@ -23,6 +23,14 @@ def AVERAGE(
     return sum(numbers) / len(numbers)
 
 
+def _argument_count(values):
+    """A range (Array) is one argument however many cells it has; a plain
+    list of values is a list of arguments."""
+    return sum(
+        len(xl.flatten(value)) if isinstance(value, (list, tuple)) else 1
+        for value in values)
+
+
 @xl.register()
 @xl.validate_args
 def COUNT(*values) -> func_xltypes.Number:
@@ -32,14 +40,16 @@ def COUNT(*values) -> func_xltypes.Number:
     https://support.office.com/en-us/article/
         count-function-a59cd7fc-b623-4d93-87a4-d23bf411294c
     """
+    # The limit is on the number of arguments, not on the number of cells
+    # in the ranges that are passed.
+    if _argument_count(values) > 255:
+        raise xlerrors.ValueExcelError(
+            f"Can only have up to 255 supplimentary arguments. "
+            f"Provided: {_argument_count(values)}")
+
     values = xl.flatten(values)
     if not len(values) or values[0] is None:
         raise xlerrors.ValueExcelError('value1 is required')
-
-    if len(values) > 255:
-        raise xlerrors.ValueExcelError(
-            f"Can only have up to 255 supplimentary arguments. "
-            f"Provided: {len(values)}")
 
     return len(list(filter(func_xltypes.Number.is_type, values)))
 
@@ -52,14 +62,16 @@ def COUNTA(*values):
     https://support.office.com/en-us/article/
         counta-function-7dc98875-d5c1-46f1-9a82-53f3219e2509
     """
+    # The limit is on the number of arguments, not on the number of cells
+    # in the ranges that are passed.
+    if _argument_count(values) > 256:
+        raise xlerrors.ValueExcelError(
+            f"Can only have up to 256 arguments. "
+            f"Provided: {_argument_count(values)}")
+
     values = xl.flatten(values)
     if not len(values) or values[0] is None:
         raise xlerrors.NullExcelError('value1 is required')
-
-    if len(values) > 256:
-        raise xlerrors.ValueExcelError(
-            f"Can only have up to 256 arguments. "
-            f"Provided: {len(values)}")
 
     cells = list(filter(lambda x: not func_xltypes.Blank.is_blank(x), values))
     return len(cells)
